@@ -900,6 +900,42 @@ scpi_bool_t SCPI_ParamToUInt64(scpi_t * context, scpi_parameter_t * parameter, u
 }
 
 /**
+ * IEEE 488.2, 7.7.2.2 allows white space before the exponent mark and after it ("1.5 E +3").
+ * strtod/strtof would stop there, so give them a copy of the number without white space.
+ * @param parameter decimal numeric parameter
+ * @param buffer space for the copy
+ * @param buffer_len length of buffer
+ * @return text to convert: the token itself if it contains no white space (or does not fit)
+ */
+static const char * decimalWithoutWs(const scpi_parameter_t * parameter, char * buffer, size_t buffer_len) {
+    int i;
+    size_t pos = 0;
+    scpi_bool_t ws = FALSE;
+
+    for (i = 0; i < parameter->len; i++) {
+        char c = parameter->ptr[i];
+        if ((c == ' ') || (c == '\t')) {
+            ws = TRUE;
+            continue;
+        }
+        if (!isdigit((uint8_t) c) && (c != '+') && (c != '-') && (c != '.') && (c != 'e') && (c != 'E')) {
+            break;
+        }
+        if (pos + 1 >= buffer_len) {
+            return parameter->ptr;
+        }
+        buffer[pos++] = c;
+    }
+
+    if (!ws) {
+        return parameter->ptr;
+    }
+
+    buffer[pos] = '\0';
+    return buffer;
+}
+
+/**
  * Convert parameter to float (32 bit)
  * @param context
  * @param parameter
@@ -909,6 +945,7 @@ scpi_bool_t SCPI_ParamToUInt64(scpi_t * context, scpi_parameter_t * parameter, u
 scpi_bool_t SCPI_ParamToFloat(scpi_t * context, scpi_parameter_t * parameter, float * value) {
     scpi_bool_t result;
     uint32_t valint;
+    char buffer[64];
 
     if (!value) {
         SCPI_ErrorPush(context, SCPI_ERROR_SYSTEM_ERROR);
@@ -924,7 +961,7 @@ scpi_bool_t SCPI_ParamToFloat(scpi_t * context, scpi_parameter_t * parameter, fl
             break;
         case SCPI_TOKEN_DECIMAL_NUMERIC_PROGRAM_DATA:
         case SCPI_TOKEN_DECIMAL_NUMERIC_PROGRAM_DATA_WITH_SUFFIX:
-            result = strToFloat(parameter->ptr, value) > 0 ? TRUE : FALSE;
+            result = strToFloat(decimalWithoutWs(parameter, buffer, sizeof (buffer)), value) > 0 ? TRUE : FALSE;
             break;
         default:
             result = FALSE;
@@ -942,6 +979,7 @@ scpi_bool_t SCPI_ParamToFloat(scpi_t * context, scpi_parameter_t * parameter, fl
 scpi_bool_t SCPI_ParamToDouble(scpi_t * context, scpi_parameter_t * parameter, double * value) {
     scpi_bool_t result;
     uint64_t valint;
+    char buffer[64];
 
     if (!value) {
         SCPI_ErrorPush(context, SCPI_ERROR_SYSTEM_ERROR);
@@ -957,7 +995,7 @@ scpi_bool_t SCPI_ParamToDouble(scpi_t * context, scpi_parameter_t * parameter, d
             break;
         case SCPI_TOKEN_DECIMAL_NUMERIC_PROGRAM_DATA:
         case SCPI_TOKEN_DECIMAL_NUMERIC_PROGRAM_DATA_WITH_SUFFIX:
-            result = strToDouble(parameter->ptr, value) > 0 ? TRUE : FALSE;
+            result = strToDouble(decimalWithoutWs(parameter, buffer, sizeof (buffer)), value) > 0 ? TRUE : FALSE;
             break;
         default:
             result = FALSE;
